@@ -32,6 +32,7 @@ pub fn registry() -> Vec<(&'static str, &'static str, MonFn)> {
         ("c08_exh", "C08", c08::exhaustive as MonFn),
         ("c08_rand", "C08", c08::random as MonFn),
         ("c08_case", "C08", c08::single as MonFn),
+        ("c08_large", "C08", c08::large as MonFn),
         ("c13_exh", "C13", c13::exhaustive as MonFn),
         ("c13_rand", "C13", c13::random as MonFn),
         ("c13_uniform", "C13", c13::uniform as MonFn),
@@ -57,6 +58,10 @@ pub fn registry() -> Vec<(&'static str, &'static str, MonFn)> {
         #[cfg(not(feature = "pointer"))]
         ("c10_dd", "C10", c10::dd as MonFn),
         #[cfg(not(feature = "pointer"))]
+        ("c05_mtbdd_terminals", "C05", c10::terminals_iter as MonFn),
+        #[cfg(not(feature = "pointer"))]
+        ("c07_mtbdd", "C07", c10::conc as MonFn),
+        #[cfg(not(feature = "pointer"))]
         ("c15_roundtrip", "C15", c15::c15_roundtrip as MonFn),
         #[cfg(not(feature = "pointer"))]
         ("c15_malformed", "C15", c15::c15_malformed as MonFn),
@@ -80,5 +85,6 @@ pub fn registry() -> Vec<(&'static str, &'static str, MonFn)> {
         ("c18_parsers", "C18", c18::parsers as MonFn),
         ("c20_digest", "C20", c20::digest as MonFn),
         ("c02_pairs", "C02", c02::pairs as MonFn),
+        ("c02_rand", "C02", c02::random as MonFn),
     ]
 }
